@@ -62,7 +62,51 @@ def match_place_documents(case):
     return dict(docs, kind='init_read', solution=solution)
 
 
+def checker_assignment_documents(case):
+    """checker documents for a checker_assignment case: problem with jobs j0 (two tasks), j1 (one delivery), vehicles v1, v2 with two shifts
+    each; solution with two tours and the activity slots of the case."""
+    import datetime
+    rfc = lambda t: datetime.datetime.fromtimestamp(int(t), datetime.timezone.utc).strftime('%Y-%m-%dT%H:%M:%SZ')
+    far = rfc(30 * 86400)
+    LIST = {'pickup': 'pickups', 'delivery': 'deliveries'}
+    j0 = {'id': 'j0'}
+    for i, k in enumerate(case['j0_kinds']):
+        j0.setdefault(LIST[k], []).append({'places': [{'location': {'index': 1}, 'duration': 0.0, 'tag': f'j0t{i}'}], 'demand': [1]})
+    j1 = {'id': 'j1', 'deliveries': [{'places': [{'location': {'index': 1}, 'duration': 0.0}], 'demand': [1]}]}
+    day = 86400
+    mk_shift = lambda a, b: {'start': {'earliest': rfc(a), 'location': {'index': 0}}, 'end': {'latest': rfc(b), 'location': {'index': 0}}}
+    shifts2 = [mk_shift(0, 10 * day), mk_shift(15 * day, 30 * day)]
+    shift = lambda: shifts2.pop(0)
+    vehicle = {'typeId': 'type1', 'vehicleIds': ['v1', 'v2'], 'profile': {'matrix': 'car'}, 'costs': {'fixed': 1.0, 'distance': 1.0, 'time': 1.0},
+               'shifts': [shift(), shift()], 'capacity': [10]}
+    problem = {'plan': {'jobs': [j0, j1]}, 'fleet': {'vehicles': [vehicle], 'profiles': [{'name': 'car'}]}}
+    times0 = {'driving': 0, 'serving': 0, 'waiting': 0, 'break': 0, 'commuting': 0, 'parking': 0}
+    stat = {'cost': 0.0, 'distance': 0, 'duration': 0, 'times': times0}
+    seen_tags = {}
+
+    def tour(vid, shift_index, slots):
+        stops = [{'location': {'index': 0}, 'time': {'arrival': rfc(0), 'departure': rfc(0)}, 'distance': 0, 'load': [0], 'activities': [{'jobId': 'departure', 'type': 'departure'}]}]
+        for jid, ty in slots:
+            a = {'jobId': jid, 'type': ty}
+            if jid == 'j0':
+                n = seen_tags.get('j0', 0)
+                a['jobTag'] = f'j0t{min(n, 1)}'
+                seen_tags['j0'] = n + 1
+            stops.append({'location': {'index': 1}, 'time': {'arrival': rfc(0), 'departure': rfc(0)}, 'distance': 0, 'load': [0], 'activities': [a]})
+        stops.append({'location': {'index': 0}, 'time': {'arrival': rfc(0), 'departure': rfc(0)}, 'distance': 0, 'load': [0], 'activities': [{'jobId': 'arrival', 'type': 'arrival'}]})
+        return {'vehicleId': vid, 'typeId': 'type1', 'shiftIndex': shift_index, 'stops': stops, 'statistic': stat}
+    slots = [tuple(x) for x in case['slots']]
+    tours = [tour('v1', case['shifts'][0], slots[:2]), tour(case['vehicle_2'], case['shifts'][1], [x for x in slots[2:] if x[0] is not None])]
+    solution = {'statistic': stat, 'tours': tours}
+    if case['unassigned']:
+        solution['unassigned'] = [{'jobId': u, 'reasons': [{'code': 'NO_REASON_FOUND', 'description': 'unknown'}]} for u in case['unassigned']]
+    return dict(case, kind='checker', group='assignment', rule='assignment_' + case['rule'], problem=problem,
+                matrix={'profile': 'car', 'travelTimes': [0] * 4, 'distances': [0] * 4}, solution=solution)
+
+
 def run_native(case, profile='dev'):
+    if case.get('kind') == 'checker_assignment':
+        case = checker_assignment_documents(case)
     if case.get('kind') == 'location_index':
         case = dict(case, kind='job_rules')
     if case.get('kind') == 'job_tag':
@@ -608,6 +652,34 @@ def evaluate(case, native):
             if ov['distance'] != tour['statistic']['distance'] or ov['duration'] != tour['statistic']['duration']:
                 ok = False
             reported = has('arrival time mismatch', 'distance mismatch', 'duration mismatch', 'solution statistic mismatch')
+        elif case['rule'] in ('assignment_vehicles', 'assignment_jobs_presence'):
+            slots = [tuple(x) for x in case['slots']]
+            v2, (sh1, sh2), un = case['vehicle_2'], case['shifts'], case['unassigned']
+            same_tour = v2 == 'v1' and sh1 == sh2
+            if case['rule'] == 'assignment_vehicles':
+                ok = v2 in ('v1', 'v2') and not same_tour
+                reported = has('used vehicle with unknown id', 'used more than once')
+            else:
+                expected = {'j0': 2, 'j1': 1}
+                used = []
+                for jid, _ in slots:
+                    if jid is not None and jid not in used:
+                        used.append(jid)
+                ok = True
+                for jid in used:
+                    where = [i for i, (x, _) in enumerate(slots) if x == jid]
+                    if any(i < 2 for i in where) and 2 in where and not same_tour:
+                        ok = False
+                    if expected.get(jid) != len(where):
+                        ok = False
+                    pk = [(i + 1) if i < 2 else 1 for i in where if slots[i][1] == 'pickup']
+                    dl = [(i + 1) if i < 2 else 1 for i in where if slots[i][1] == 'delivery']
+                    if pk and dl and max(pk) > min(dl):
+                        ok = False
+                if len(set(un)) != len(un) or any(u not in expected for u in un) or any(u in used for u in un) or len(set(un) | set(used)) != len(expected):
+                    ok = False
+                reported = has('job served in multiple tours', 'not all tasks served', 'found pickup after delivery', 'duplicated job ids', 'unknown job id in the list',
+                               'job present as assigned and unassigned', "amount of jobs present in problem and solution doesn't match", 'cannot find job with id')
         elif case['rule'] == 'load':
             dims = case['dims']
             jobs_by_id = {j['id']: j for j in case['problem']['plan']['jobs']}
@@ -832,6 +904,8 @@ def evaluate(case, native):
 
 def confirm(case):
     """-> (reproduced: True/False/None, explanation, native output)"""
+    if case.get('kind') == 'checker_assignment':
+        case = checker_assignment_documents(case)
     native, err = run_native(case, 'dev')
     if native is None:
         return None, err, None
